@@ -32,6 +32,7 @@ var c17Kinds = []struct {
 	{"lowercaseName", "convergen", "", false},
 	{"nameSuffix", "ConvergenX", "", false},
 	{"namePrefix", "MyConvergen", "// Convergen-like name.\n", false},
+	{"docMarkedEmbedding", "Emb%d", "// :convergen\n", true},
 }
 
 var c17Siblings = []struct{ id, src string }{
@@ -62,8 +63,15 @@ func c17Cell(kinds []int, sib, recv int) *scen.Cell {
 			return nil // the same name twice is not valid Go
 		}
 		names[name] = true
+		if kd.id == "docMarkedEmbedding" {
+			// the converter definition is split: an unmarked part interface is embedded in the marked one
+			sb.WriteString(fmt.Sprintf("type Part%d interface {\n\tP%da(*S2) *D\n}\n\n", i, i))
+		}
 		sb.WriteString(kd.doc)
 		sb.WriteString("type " + name + " interface {\n")
+		if kd.id == "docMarkedEmbedding" {
+			sb.WriteString(fmt.Sprintf("\tPart%d\n", i))
+		}
 		if recv == 1 {
 			// same method name under different receivers
 			src := []string{"*S", "*S2", "*D"}[i%3]
@@ -172,6 +180,9 @@ func init() {
 				} else {
 					want = append(want, fmt.Sprintf("M%da", i), fmt.Sprintf("M%db", i))
 				}
+				if c17Kinds[k].id == "docMarkedEmbedding" {
+					want = append(want, fmt.Sprintf("P%da", i)) // the method set of the marked interface includes the embedded methods
+				}
 			}
 			sort.Strings(want)
 			got := generatedFuncs(sf, of)
@@ -195,6 +206,14 @@ func init() {
 				}
 				ts := gd.Specs[0].(*ast.TypeSpec)
 				if _, isIntf := ts.Type.(*ast.InterfaceType); !isIntf {
+					continue
+				}
+				if strings.HasPrefix(ts.Name.Name, "Part") {
+					// the embedded part interface is an ordinary, unmarked interface: carried over untouched
+					wantTxt := normDecl(declSlice(sfset, o.Cell.Files["setup.go"], d))
+					if outDecl[ts.Name.Name] != wantTxt {
+						add("unselected-interface-changed|kind=embedded-part", fmt.Sprintf("interface %s must be carried over untouched", ts.Name.Name))
+					}
 					continue
 				}
 				k := c17Kinds[m.Kinds[idx]]
